@@ -41,6 +41,8 @@ TStep ==
                          \/ Ok(nx.eline, nx.ecol, nx.nlines)
                          \/ Fail
                       /\ pc' = "head" /\ MatchTopNext(nx)
+                      \* same attempt of the same call: the input may only grow by a bounded amount
+                      /\ ((nx.logical = e.logical /\ nx.retries = e.retries - 1) => LenOK(e.length, nx.length, e.nlines + 1))
        \/ /\ e.cmd = "end" /\ pc = "done" /\ UNCHANGED vars
   /\ l' = l + 1 /\ tid' = tid /\ used' = used
 
